@@ -20,9 +20,9 @@ class C02(MotionMonitor):
                    "a case where B enters a region is a generator error and is discarded (counted)"]
     classes = [(3, "no-regions", {}), (3, "disabled-throughout", {}),
                (4, "avoided", mk(arcs=True, arcs_rel=True, rel=True, inch=True, avoid=True, p_inside=0.0, margin=0.05, g28mid=False,
-                                 spell=True)),
-               (2, "avoided-with-toggles", mk(arcs=True, arcs_rel=True, rel=True, at=True, avoid=True, p_inside=0.0, margin=0.05,
-                                              p_arc=0.15, p_at=0.08, start_rel=0.7)),
+                                 spell=True, p_arc=0.1)),
+               (3, "avoided-with-toggles", mk(arcs=True, arcs_rel=True, rel=True, at=True, avoid=True, p_inside=0.0, margin=0.05,
+                                              p_arc=0.2, p_at=0.1, start_rel=0.8)),
                (1, "avoided-firmware", mk(fw=True, arcs=True, arcs_rel=True, rel=True, avoid=True, p_inside=0.0, retmove=True))]
 
     def gen_case(self, rnd, tier, k):
@@ -41,6 +41,10 @@ class C02(MotionMonitor):
         regs = gen_regions(rnd, rnd.randint(1, 5))
         # the generated start position (0,0) after G28 must not be covered either: Z-only moves there would be excluded
         regs = [r for r in regs if not (r[0] == "rect" and min(r[1], r[3]) <= 0.5)]
+        if rnd.random() < 0.5:
+            # sentinel slabs far outside the bed: the tool never goes there, but a wildly wrong tracked position does
+            regs += [["rect", -5000.0, -5000.0, -60.0, 5000.0, "far-left"], ["rect", 120.0, -5000.0, 5000.0, 5000.0, "far-right"],
+                     ["rect", -5000.0, -5000.0, 5000.0, -60.0, "far-below"], ["rect", -5000.0, 120.0, 5000.0, 5000.0, "far-above"]]
         regs2, g = gen_program(rnd, feats, settings, regions=regs)
         return dict(cls=name, settings=settings, regions=regs2, steps=g.steps, tags=sorted(g.tags))
 
